@@ -3,7 +3,7 @@
    corresponded against the real restorer on every run). *)
 From Coq Require Import List String ZArith NArith Bool Lia.
 Import ListNotations.
-From DV Require Import Model.Tree Model.Tables Model.Restore Proofs.RestoreProofs Gen.RestTbl.
+From DV Require Import Model.Tree Model.Tables Model.Restore Proofs.RestoreProofs Gen.RestTbl Gen.RestoreSrc.
 Local Open Scope string_scope.
 Local Open Scope Z_scope.
 Local Open Scope list_scope.
@@ -67,6 +67,14 @@ Proof.
   - vm_compute. reflexivity.
 Qed.
 
+(* FileRestorer.RestoreFile re-initialises the state the model starts from before every file
+   (lines = [0] in a fresh array, no comments, cursorAtNewLine = 0, base = cursor = Fset.Base()):
+   a reused FileRestorer behaves like a new one. *)
+Theorem C12_restorer_starts_from_init_state : restorefile_starts_from_init_state = true.
+Proof. vm_compute. reflexivity. Qed.
+
+
 Print Assumptions C12_position_space_coherent.
 Print Assumptions C12_cursor_monotone.
 Print Assumptions C12_files_disjoint.
+Print Assumptions C12_restorer_starts_from_init_state.
